@@ -280,6 +280,8 @@ def r3_nothing_dropped(a, tier):
         # strings that are spelled like the constants of the grammar language's `value` rule (its JSON-like literals)
         dict(name='jsonwords', params=('true', 'false', 'null'), kwparams={'k': 'true', 'n': 'null'}, base=None, is_name=False, no_memo=False),
         dict(name='constants', params=(True, None, 1.5), kwparams={'k': False}, base=None, is_name=False, no_memo=False),
+        # a::b paths: bare only as the first parameter, a string everywhere else
+        dict(name='paths', params=('Base::Derived', 'ns::Other'), kwparams={'base': 'ns::Leaf'}, base=None, is_name=False, no_memo=False),
         # a rule that was written with @override: the model holds only the final definition, so the printed text has nothing to override
         dict(name='redefined', params=(), kwparams={}, base=None, is_name=True, no_memo=False, decorators=['override', 'name']),
     ]
@@ -292,6 +294,9 @@ def r3_nothing_dropped(a, tier):
         r_ = ebnf.rules.get(rn)
         if r_ is not None:
             words |= {t[1] for t in _walk_ir(r_.exp) if isinstance(t, tuple) and t and t[0] == 'tok'}
+    calls_of = lambda rn: {t[1] for t in _walk_ir(ebnf.rules[rn].exp) if isinstance(t, tuple) and t and t[0] == 'call'} if rn in ebnf.rules else set()  # noqa: E731
+    if not ('path' in calls_of('first_param') and 'path' not in calls_of('literal') and 'first_param' in calls_of('params') and 'literal' in calls_of('pair')):
+        raise AnalysisError('C13.R3: _tatsu.ebnf no longer reads a bare a::b path as the first positional parameter only (update the reader of rule headers)')
     if words != set(PARAM_CONSTANTS):
         raise AnalysisError(f'C13.R3: the constant words of the grammar language are {sorted(words)} in _tatsu.ebnf, the reader knows {sorted(PARAM_CONSTANTS)}')
     for c in rule_cases:
